@@ -18,6 +18,7 @@ from .known import Known, VERIF
 from .shrink import shrink_case
 
 RUN_TIMEOUT = 20
+MAX_REPORTED = 6
 TERMINATION_PROPS = {"C03": "tree.terminates", "C16": "read.returns", "C18": "load.terminates"}
 
 
@@ -275,8 +276,14 @@ def run_check(prop, tier="quick", base=0, jobs=None, budget=None, runs=None, out
     for item in sorted(found, key=lambda v: (v["signature"], len(json.dumps(v["case"], default=repr)))):
         by_sig.setdefault(item["signature"], item)
     replay_paths = []
+    unreported = 0
     for sig, item in sorted(by_sig.items()):
         if known.is_known(sig):
+            continue
+        if len(violations) >= MAX_REPORTED:
+            # one confirmed replay decides the exit code; minimising and re-confirming dozens of
+            # signatures of one defect would only cost wall time
+            unreported += 1
             continue
         if item["case"] is None:
             harness_errors.append("unreplayable: %s" % item["violation"]["message"])
@@ -370,6 +377,8 @@ def run_check(prop, tier="quick", base=0, jobs=None, budget=None, runs=None, out
                               len(agg["keys"]), wall_s, evidence["coverage"]["runs_per_hour"]))
     for err in harness_errors[:10]:
         say("HARNESS-ERROR: %s" % err.strip().replace("\n", "\n    "))
+    if unreported:
+        say("simkit: %d further violation signatures not minimised (cap %d)" % (unreported, MAX_REPORTED))
     for sig, vio, case, path in violations:
         say("violation: %s :: %s" % (sig, vio["message"]))
         say("VIOLATION property=%s replay=%s" % (prop, path))
